@@ -99,6 +99,13 @@ func NewExec(p *Program, m *core.Machine) *Exec {
 	x.Cfg = Config{Unwind: 8, MaxDepth: 60, MaxSteps: 2000000}
 	x.Intrinsic = map[string]Intrinsic{}
 	registerIntrinsics(x)
+	x.hooks.OnWild = func(addr *smt.Term, what string) {
+		if os.Getenv("SYMX_DEBUG") != "" {
+			for f := x.curFrame; f != nil; f = f.caller {
+				fmt.Fprintf(os.Stderr, "  wild in %s\n", f.fn)
+			}
+		}
+	}
 	x.hooks.OnNil = func(addr *smt.Term) { x.rtPanic("nilptr", "invalid memory address or nil pointer dereference") }
 	return x
 }
@@ -147,6 +154,13 @@ func (p *goPanic) describe() string {
 }
 
 func (x *Exec) unsupported(what string) {
+	if x.curFrame != nil {
+		what += " [in " + x.curFrame.fn.String()
+		if x.curFrame.caller != nil {
+			what += " <- " + x.curFrame.caller.fn.String()
+		}
+		what += "]"
+	}
 	x.M.Inconclusive("unsupported", what)
 	if os.Getenv("SYMX_DEBUG") != "" {
 		fmt.Fprintf(os.Stderr, "unsupported: %s\n", what)
@@ -184,6 +198,14 @@ func (x *Exec) call(caller *frame, fn *ssa.Function, args []Value, bindings []Va
 	x.nextIsDeferred = false
 	if in, ok := x.Intrinsic[name]; ok {
 		return in(x, caller, args, nil)
+	}
+	if fn.Name() == "init" && fn.Pkg != nil && fn.Signature.Recv() == nil && fn.Synthetic != "" {
+		// package initialiser: only pure allow-listed packages are initialised
+		path := fn.Pkg.Pkg.Path()
+		if !initAllowed[path] && !x.Cfg.RunInit[path] {
+			return nil
+		}
+		x.inited[fn.Pkg] = true
 	}
 	if strings.HasPrefix(fn.Name(), "nd_") {
 		return x.ndCall(caller, fn, args)
@@ -473,7 +495,7 @@ func (x *Exec) ensureInit(p *ssa.Package, g *ssa.Global) {
 }
 
 var initAllowed = map[string]bool{
-	"unicode": true, "unicode/utf8": true, "strings": true, "errors": true, "path": true, "path/filepath": true,
+	"unicode": true, "unicode/utf8": true, "strings": true, "errors": false, "path": true, "path/filepath": true,
 	"internal/filepathlite": true, "io/fs": true, "strconv": true, "io": true, "bytes": true, "sort": true, "slices": true,
 	"internal/bytealg": true, "math/bits": true, "unicode/utf16": true, "internal/stringslite": true, "internal/oserror": true,
 	"syscall": false, "os": false, "go/token": true,
